@@ -343,6 +343,34 @@ func c19GenC(r *Rand, tier string, add func(*c19In)) {
 		}
 		add(in)
 	}
+	// --- {labelN} with N around the number of dot-separated pieces, on Hosts whose port contains dots,
+	// with empty labels, trailing dots, IPv6 literals: N = 1, pieces-1, pieces, pieces+1 for each
+	lhosts := []string{"a.b:1.2", "shop.example:80.80", "a.b:80", "a:1.2.3", "a.b.:80", "a.b.:8.0.", ".:.", "a..b:1..2", "[::1]:80", "[::1]:8.0",
+		"[fe80::1%eth0]:80", "[2001:db8::1.2.3.4]:443", "[2001:db8::1.2.3.4]:4.4.3", "1.2.3.4:80", "1.2.3.4:8.0", "a.b:", "a.b:.", ":80", ":8.0", "a.b.c",
+		"a.b.c.", "..", "a.b:80:90", "a.b:80.90:1", "x", "", "a.b]:8.0", "[a.b:8.0"}
+	for i := 0; i < 12*mult; i++ {
+		lab := []string{"a", "", "b-c", "xn--1", "1"}
+		h := ""
+		for k := r.Range(1, 4); k > 0; k-- {
+			h += lab[r.Intn(len(lab))] + "."
+		}
+		h = h[:len(h)-r.Intn(2)]
+		if r.Intn(4) > 0 {
+			h += ":" + []string{"80", "8.0", "1.2.3", ".", "80.", ".80", ""}[r.Intn(7)]
+		}
+		lhosts = append(lhosts, h)
+	}
+	for _, h := range lhosts {
+		pieces := strings.Count(h, ".") + 1
+		seenN := map[int]bool{}
+		for _, n := range []int{1, pieces - 1, pieces, pieces + 1} {
+			if n < 0 || seenN[n] {
+				continue
+			}
+			seenN[n] = true
+			add(&c19In{Kind: "label", Data: c19H([]byte(h)), Name: c19H([]byte(fmt.Sprint(n)))})
+		}
+	}
 	// --- {hostonly} / {server_port}
 	parts := []string{"", "a", "example.com", "a.b.", ".a", "a..b", "[::1]", "[fe80::1%eth0]", "::1", "[", "]", "[]", "[a]b", "1.2.3.4", "x:y"}
 	ports := []string{"", ":", ":80", ":8.0", ":80:", "::", ":[", ":]", ":443.", ":a.b.c", ":0x50"}
